@@ -1,4 +1,52 @@
-(* C19 placeholder, replaced below *)
-From RV Require Import Model.Mapping.
-Theorem C19_placeholder : True. Proof. exact I. Qed.
-Eval cbv in "ASSUMPTIONS-OF C19_placeholder"%string. Print Assumptions C19_placeholder.
+(* C19  Python sees native objects equal to the rendered data.  Statements only; proofs in
+   Proofs/PyFacts.v about Model/Py.v (as_py_obj over a Python object algebra with dict semantics).
+   PARTIAL: PyO3's primitive conversions and the exception mapping are runtime behaviour,
+   compared in embedded CPython on every run.  Known findings (known_findings.txt): keys equal
+   under Python's == collapse (F13); unhashable keys raise TypeError (F16). *)
+From RV Require Import Model.Py Proofs.WfFacts Proofs.PyFacts.
+
+(** Rendered data converts entry by entry, in the same key order, to the same data: mappings to
+    dicts, lists to lists, strings to str, booleans to bool, null to None, integers to (unbounded)
+    int, other numbers to float -- whenever no two keys of one mapping are equal in Python and
+    all keys are hashable. *)
+Theorem C19_lossless_conversion :
+  forall v, closed v -> py_distinct v -> exists o, as_py_obj v = PyOk o /\ same_data v o.
+Proof. exact as_py_lossless. Qed.
+Eval cbv in "ASSUMPTIONS-OF C19_lossless_conversion"%string. Print Assumptions C19_lossless_conversion.
+
+Theorem C19_scalar_kinds_preserved :
+  as_py_obj VNull = PyOk PyNone /\
+  (forall b, as_py_obj (VBool b) = PyOk (PyBool b)) /\
+  (forall z, as_py_obj (VNum (NInt z)) = PyOk (PyInt z)) /\
+  (forall f, as_py_obj (VNum (NFloat f)) = PyOk (PyFloat f)) /\
+  (forall s, as_py_obj (VLit s) = PyOk (PyStr s)) /\
+  (forall s, as_py_obj (VStr s) = PyOk (PyStr s)).
+Proof. exact as_py_scalars. Qed.
+Eval cbv in "ASSUMPTIONS-OF C19_scalar_kinds_preserved"%string. Print Assumptions C19_scalar_kinds_preserved.
+
+(** Rendered (closed) data never reaches the unreachable!() of the conversion. *)
+Theorem C19_no_panic_on_rendered_data :
+  forall v, closed v -> closed_keys v -> as_py_obj v <> PyPanic.
+Proof. exact as_py_no_panic. Qed.
+Eval cbv in "ASSUMPTIONS-OF C19_no_panic_on_rendered_data"%string. Print Assumptions C19_no_panic_on_rendered_data.
+
+(** The hypothesis py_distinct is needed: the witnesses of the two recorded findings. *)
+Theorem C19_key_collision_witness :
+  as_py_obj (VMap [mk_entry (VBool true) (VLit "a") false false; mk_entry (VNum (NInt 1)) (VLit "b") false false])
+  = PyOk (PyDict [(PyBool true, PyStr "b")]).
+Proof. exact py_key_collision. Qed.
+Eval cbv in "ASSUMPTIONS-OF C19_key_collision_witness"%string. Print Assumptions C19_key_collision_witness.
+
+Theorem C19_unhashable_key_witness :
+  as_py_obj (VMap [mk_entry (VSeq [VNum (NInt 1)]) (VLit "a") false false]) = PyTypeError.
+Proof. exact py_unhashable_key. Qed.
+Eval cbv in "ASSUMPTIONS-OF C19_unhashable_key_witness"%string. Print Assumptions C19_unhashable_key_witness.
+
+Example C19_nonvacuous :
+  let v := VMap [mk_entry (VStr "a") (VSeq [VNum (NInt 18446744073709551615); VBool false; VNull]) false false;
+                 mk_entry (VNum (NInt 2)) (VMap [mk_entry (VBool true) (VLit "t") false false]) false false] in
+  closed v /\ py_distinct v.
+Proof.
+  cbn zeta. split; [cbn; tauto|]. cbn.
+  repeat (split || eexists || constructor || reflexivity).
+Qed.
